@@ -933,6 +933,15 @@ func (c *Compiler) linkRecursiveCode(ctx *compileContext) {
 
 		totalLength := code.TotalLength()
 
+		// an interface member pushes its frame behind the current one, at
+		// Length+3 slots: inside this code that must be behind the frame of
+		// this code (totalLength+4 slots), not that of the top-level code
+		for c := code; !c.IsEnd(); c = c.IterNext() {
+			if c.Op == OpInterface || c.Op == OpInterfacePtr {
+				c.Length = uint32(totalLength + 1)
+			}
+		}
+
 		// Idx, ElemIdx, Length must set after call TotalLength
 		lastCode.Idx = uint32((totalLength + 1) * uintptrSize)
 		lastCode.ElemIdx = lastCode.Idx + uintptrSize
